@@ -153,7 +153,13 @@ func TraceHash(r *vsched.Result) uint64 {
 type item struct {
 	prefix []int
 	cost   int
+	depth  int // number of deviations from the base execution
 }
+
+// shardDepth: executions with fewer deviations than this are run by EVERY worker (visited and
+// counted by worker 0 only) and expanded without the happens-before cache, so that all workers
+// enumerate the same children in the same order; the subtrees below are dealt out round-robin.
+const shardDepth = 2
 
 // Explore enumerates every execution of body whose deviation cost is <= opt.Bound and
 // calls visit on each. visit returns false to stop the exploration early.
@@ -162,10 +168,10 @@ func Explore(opt Options, body func(), visit func(*Exec) bool) (Stats, error) {
 	if opt.Shards <= 0 {
 		opt.Shards = 1
 	}
-	stack := []item{{nil, 0}}
+	stack := []item{{nil, 0, 0}}
 	seen := map[hbKey]int{}
-	top := true
-	topIdx := 0
+	sharded := !opt.NoShard && opt.Shards > 1
+	dealIdx := 0
 	for len(stack) > 0 {
 		it := stack[len(stack)-1]
 		stack = stack[:len(stack)-1]
@@ -179,8 +185,8 @@ func Explore(opt Options, body func(), visit func(*Exec) bool) (Stats, error) {
 			return st, err
 		}
 		x.Cost = it.cost
-		isBase := top
-		if !(isBase && opt.Shard != 0 && !opt.NoShard) {
+		common := sharded && it.depth < shardDepth // run by every worker
+		if !(common && opt.Shard != 0) {
 			st.Execs++
 			st.Steps += int64(x.Res.Steps)
 			if len(x.Points) > st.MaxPoints {
@@ -205,7 +211,7 @@ func Explore(opt Options, body func(), visit func(*Exec) bool) (Stats, error) {
 		cost := it.cost
 		var kids []item
 		var hb *hbHasher
-		if opt.HBR {
+		if opt.HBR && !common {
 			hb = newHB(x.Res.Trace)
 			hb.auxNeutral = opt.HBRAuxNeutral
 		}
@@ -244,21 +250,19 @@ func Explore(opt Options, body func(), visit func(*Exec) bool) (Stats, error) {
 				pre := make([]int, i+1)
 				copy(pre, x.Choices[:i])
 				pre[i] = alt
-				kids = append(kids, item{pre, cost + ac})
+				kids = append(kids, item{pre, cost + ac, it.depth + 1})
 			}
 		}
-		if top {
-			top = false
-			if !opt.NoShard && opt.Shards > 1 {
-				var mine []item
-				for _, k := range kids {
-					if topIdx%opt.Shards == opt.Shard {
-						mine = append(mine, k)
-					}
-					topIdx++
+		if sharded && it.depth == shardDepth-1 {
+			// the children of this execution are the roots of the subtrees that are dealt out
+			var mine []item
+			for _, k := range kids {
+				if dealIdx%opt.Shards == opt.Shard {
+					mine = append(mine, k)
 				}
-				kids = mine
+				dealIdx++
 			}
+			kids = mine
 		}
 		// push in reverse so that the simplest deviation is explored first
 		for i := len(kids) - 1; i >= 0; i-- {
